@@ -19,7 +19,7 @@ type Embed struct {
 	rev     map[string]int
 }
 
-const embedKinds = 8
+const embedKinds = 8 // kind 8 (unary strings) is only chosen when a program uses starts_with
 
 // orderedKinds preserve the integer order of constants (needed when lt/le guards are used).
 var orderedKinds = []int{0, 1, 5}
@@ -35,6 +35,8 @@ func newEmbed(seed int64, cmp int) *Embed {
 	}
 	e := &Embed{PredSet: int(seed/7) % 3, rev: map[string]int{}}
 	switch cmp {
+	case 3:
+		e.Kind = 8
 	case 2:
 		e.Kind = orderedKinds[int(seed)%len(orderedKinds)]
 	case 1:
@@ -51,6 +53,8 @@ func cmpOfRules(rs ...[]ARule) int {
 		for _, r := range l {
 			for _, g := range r.G {
 				switch g.O {
+				case "pre":
+					return 3
 				case "lt", "le":
 					c = 2
 				case "eq", "ne":
@@ -117,6 +121,8 @@ func (e *Embed) Const(c int) biscuit.Term {
 		t = biscuit.Set{biscuit.Integer(int64(c)), biscuit.Integer(100)}
 	case 7:
 		t = biscuit.Set{biscuit.Bytes([]byte{byte(c)}), biscuit.Bytes([]byte{200, 1})}
+	case 8: // constant i is "a" repeated 12-i times: x.starts_with(y) iff x <= y (larger ids are shorter strings)
+		t = biscuit.String(strings.Repeat("a", 12-c))
 	}
 	e.rev[termKey(t)] = c
 	return t
